@@ -30,6 +30,7 @@ def ExtWF : DExpr → Prop
   | .symdiff a b => ExtWF a ∧ ExtWF b
   | .app1 f d => ExtWF d ∧ ∀ x r, x.WF → f x = .ok r → r.WF
   | .app2 f a b => ExtWF a ∧ ExtWF b ∧ ∀ x y r, x.WF → y.WF → f x y = .ok r → r.WF
+  | .app3 f a b c => ExtWF a ∧ ExtWF b ∧ ExtWF c ∧ ∀ x y z r, x.WF → y.WF → z.WF → f x y z = .ok r → r.WF
 
 /-- all inputs have unique identifier keys. -/
 def EnvWF (env : Env) : Prop := ∀ n d, env.lookup n = some d → d.WF
@@ -237,6 +238,13 @@ theorem evalD_WF (env : Env) (henv : EnvWF env) : ∀ (e : DExpr) (res : DS),
     obtain ⟨x, hx, h⟩ := (bind_ok _ _ _).1 h
     obtain ⟨y, hy, h⟩ := (bind_ok _ _ _).1 h
     exact he.2.2 x y res (iha x he.1 hx) (ihb y he.2.1 hy) h
+  | app3 f a b c iha ihb ihc =>
+    intro res he h
+    simp only [evalD] at h
+    obtain ⟨x, hx, h⟩ := (bind_ok _ _ _).1 h
+    obtain ⟨y, hy, h⟩ := (bind_ok _ _ _).1 h
+    obtain ⟨z, hz, h⟩ := (bind_ok _ _ _).1 h
+    exact he.2.2.2 x y z res (iha x he.1 hx) (ihb y he.2.1 hy) (ihc z he.2.2.1 hz) h
 
 /-- without unique keys the matching of dataset operands is ambiguous: non-vacuity of the hypothesis
 and an example of what it excludes. -/
